@@ -127,6 +127,12 @@ def divisors_of_xn1(n):
     return sorted(out)
 
 
+def _block_lists(n, k):
+    """Index lists that name exactly the first / the last k positions, in non-ascending order (reversed, rotated by one)."""
+    first, last = list(range(k)), list(range(n - k, n))
+    return [("firstblock-reversed", first[::-1]), ("lastblock-rotated", last[1:] + last[:1])] if k >= 2 else []
+
+
 def catalogue(tier, rng, families=None, max_n=64, long_bch=False, rm5=False, all_divisors=False):
     from kaira.models.fec import encoders as E
     quick = tier == "quick"
@@ -154,7 +160,7 @@ def catalogue(tier, rng, families=None, max_n=64, long_bch=False, rm5=False, all
         perm = list(custom)
         while k > 1 and perm == custom:
             rng.shuffle(perm)
-        for info, iset in (("left", "left"), ("right", "right"), ("custom", custom), ("permuted", perm)):
+        for info, iset in [("left", "left"), ("right", "right"), ("custom", custom), ("permuted", perm)] + (_block_lists(n, k) if (k, m) in ((3, 3), (4, 3)) else []):
             add(Entry("Systematic(%d,%d)/%s" % (n, k, info), "systematic", (n, k), (lambda P=P, iset=iset: E.SystematicLinearBlockCodeEncoder(P, information_set=iset)),
                       info=info, component="SystematicLinearBlockCodeEncoder"))
     # --- Hamming
@@ -172,6 +178,8 @@ def catalogue(tier, rng, families=None, max_n=64, long_bch=False, rm5=False, all
                 if pm == sorted(pm):
                     pm = pm[::-1]
                 infos.append(("permuted", pm))          # an information set listed in non-ascending order
+                if mu == 3:
+                    infos += _block_lists(n, k)
             for info, iset in infos:
                 add(Entry("Hamming(mu=%d,ext=%s)/%s" % (mu, ext, info), "hamming", (mu, int(ext)),
                           (lambda mu=mu, ext=ext, iset=iset: E.HammingCodeEncoder(mu, extended=ext, information_set=iset)), info=info,
@@ -212,7 +220,7 @@ def catalogue(tier, rng, families=None, max_n=64, long_bch=False, rm5=False, all
                 pm = rng.sample(range(n), kk)
                 if pm == sorted(pm):
                     pm = pm[::-1]
-                infos += [("custom", cs), ("permuted", pm)]
+                infos += [("custom", cs), ("permuted", pm)] + _block_lists(n, kk)
             for info, iset in infos:
                 add(Entry("Cyclic(n=%d,g=%s)/%s" % (n, bin(g), info), "cyclic", (n, g), (lambda n=n, g=g, iset=iset: E.CyclicCodeEncoder(code_length=n, generator_polynomial=g, information_set=iset)),
                           info=info, cyclic=True, gpoly=g, component="CyclicCodeEncoder", extra={"k": kk}))
@@ -245,7 +253,7 @@ def catalogue(tier, rng, families=None, max_n=64, long_bch=False, rm5=False, all
                         pm = rng.sample(range(nn), kk)
                         if pm == sorted(pm):
                             pm = pm[::-1]
-                        infos += [("custom", sorted(rng.sample(range(nn), kk))), ("permuted", pm)]
+                        infos += [("custom", sorted(rng.sample(range(nn), kk))), ("permuted", pm)] + _block_lists(nn, kk)
                 except Exception:
                     pass
             for info, iset in infos:
@@ -262,7 +270,7 @@ def catalogue(tier, rng, families=None, max_n=64, long_bch=False, rm5=False, all
         pmg = rng.sample(range(ng), 12)
         if pmg == sorted(pmg):
             pmg = pmg[::-1]
-        for info, iset in (("left", "left"), ("right", "right"), ("permuted", pmg)):
+        for info, iset in [("left", "left"), ("right", "right"), ("permuted", pmg)] + _block_lists(ng, 12)[:1]:
             add(Entry("Golay(ext=%s)/%s" % (ext, info), "golay", (int(ext),), (lambda ext=ext, iset=iset: E.GolayCodeEncoder(extended=ext, information_set=iset)),
                       info=info, perfect=not ext, dexact=True, component="GolayCodeEncoder"))
     # --- Reed-Solomon style
